@@ -7,7 +7,7 @@ LEVELS = {"C14": "fault_enumeration"}
 
 # id -> (technique, level text, level note)
 CHECKS = {
- "C01": ("property-based testing (rapid) over token/line soup, repository inputs and mutations, deep nesting x configuration lattice; bounded-exhaustive short strings; native go fuzzing (thorough); oracle: no panic, nil error, Parse+Render == Convert, watchdog with isolated re-run",
+ "C01": ("property-based testing (rapid) over token/line soup, repository inputs and mutations, deep nesting x configuration lattice; bounded-exhaustive short strings; native go fuzzing (thorough); oracle: no panic, nil error, Parse+Render == Convert, watchdog with isolated re-run, and for deep-nesting documents an allocation bound (a conversion of <= 16 KiB must not allocate more than 1 GiB: running out of memory is a crash)",
          "Generated-input search with an explicit totality oracle: every case must return nil from Convert and from Parse+Render with equal bytes, without panic, and within a watchdog bound that is only reported after an isolated reproduction. Exhaustive for all strings of length <= 3 (quick) / 4 (thorough) over a 23-symbol alphabet x 8 configurations, and for line-structured documents (all pairs of 175 line atoms = indentation x line content, plus all triples over 50 atoms in quick / all 175^3 triples in thorough, x 4 configurations); random and coverage-guided beyond. It cannot establish absence for longer inputs.",
          "Trusted: the harness (kit, generators), Go runtime panic recovery; documents are bounded to 16 KiB; the time bound is wall clock (30 s watchdog, 120 s isolated re-run)."),
  "C05": ("property-based testing (rapid) + bounded-exhaustive short strings + native go fuzzing (thorough); oracle: AST invariant validator applied to every node of every parsed tree",
